@@ -63,3 +63,8 @@ package stdlib_contracts
 //@ assumed
 //@ pure
 //@ ensures result == dsha(data)
+
+//@ package github.com/nspcc-dev/neo-go/pkg/vm/stackitem
+//@ func (Type).IsValid
+//@ assumed
+//@ pure
